@@ -181,7 +181,7 @@ class Interp3(Interp2):
             base = self.coerce_param(obj, "ChildList")
             self.st.env[node.func.value.id] = SAdt("ChildList", self.F("csnoc", base.t, pos[0].t), fresh=True, pyclass="list")
             return SNone()
-        if isinstance(obj, SAdt) and obj.sort == "AttrVal" and meth in ("split", "endswith", "strip"):
+        if isinstance(obj, SAdt) and obj.sort == "AttrVal" and meth in ("split", "endswith", "strip", "rstrip", "lstrip"):
             s = SStr(z3.If(self.is_c("Plain", obj.t), self.acc("Plain", "s", obj.t), self.acc("RawV", "s", obj.t)))
             return self.str_method_hook(s, meth, pos, kw, node) or self._str_method(s, meth, pos, kw, node)
         if isinstance(obj, SAdt) and obj.sort == "CssArgs" and meth == "items" and not pos:
@@ -198,6 +198,8 @@ class Interp3(Interp2):
             return SAdt("StrList", self.w.funcs["splitWs"](s.t), fresh=True)
         if meth == "strip" and not pos:
             return SStr(self.w.funcs["stripWs"](s.t))
+        if meth in ("rstrip", "lstrip") and not pos and not kw:
+            return SStr(self.F(meth + "Ws", s.t))
         if meth == "lower" and not pos:
             return SStr(self.F("lowerStr", s.t))
         if meth == "join" and len(pos) == 1 and isinstance(pos[0], SAdt) and pos[0].sort == "CssVal" and self.implied(self.is_c("CssList", pos[0].t)):
